@@ -1613,7 +1613,7 @@ func specDryReport(fileColor, dirColor *color.Color, ext []string, roots []*Node
 //@ applies formattedSpreadSpec to gtree.formattedSpreaderSimple.spread[jsonNode], gtree.formattedSpreaderSimple.spread[yamlNode], gtree.formattedSpreaderSimple.spread[tomlNode]
 //@ loop gtree.formattedSpreaderSimple.spread#1
 //@   invariant sofar: len(encTrace) == len(old(encTrace)) + $i && take(encTrace, len(old(encTrace))) == old(encTrace) && wfail == old(wfail) && encoders == old(encoders) + 1
-//@   invariant each: forall k int :: {roots[k]} 0 <= k && k < $i ==> isType(encTrace[len(old(encTrace)) + k], $T) && as(encTrace[len(old(encTrace)) + k], $T).Name == roots[k].name && len(as(encTrace[len(old(encTrace)) + k], $T).Children) == len(roots[k].children)
+//@   invariant each: forall j int :: {encTrace[j]} len(old(encTrace)) <= j && j < len(encTrace) ==> allocated(encTrace[j]) && isType(encTrace[j], $T) && as(encTrace[j], $T).Name == roots[j - len(old(encTrace))].name && len(as(encTrace[j], $T).Children) == len(roots[j - len(old(encTrace))].children)
 
 // interface-level view of the formatted spreader (the dynamic type does not reveal the instance): consequences of the
 // three verified instance contracts, hence assumed here
@@ -1651,7 +1651,7 @@ func specDryReport(fileColor, dirColor *color.Color, ext []string, roots []*Node
 //@   invariant relay [C04,C02]: spRoots == rsRoots && !rsFailed && !rsStopped && !esFailed
 //@   invariant once [C04]: encoders == old(encoders) + 1
 //@   invariant trace [C04]: len(encTrace) == len(old(encTrace)) + len(spRoots) && take(encTrace, len(old(encTrace))) == old(encTrace)
-//@   invariant each [C04]: forall k int :: {spRoots[k]} 0 <= k && k < len(spRoots) ==> isType(encTrace[len(old(encTrace)) + k], $T) && as(encTrace[len(old(encTrace)) + k], $T).Name == spRoots[k].name
+//@   invariant each [C04]: forall j int :: {encTrace[j]} len(old(encTrace)) <= j && j < len(encTrace) ==> isType(encTrace[j], $T) && as(encTrace[j], $T).Name == spRoots[j - len(old(encTrace))].name
 //@   invariant quiet [C14]: wfail == old(wfail)
 
 // struct tags of the records handed to the encoders
